@@ -117,10 +117,11 @@ def parseCertKey (b : Bytes) (len so perm fuse : Nat) (rec : SrkRecord) : Option
     match parseSignature (b.drop so) with
     | none => none
     | some sig =>
+      -- the declared length is the signature offset + the signature container (commit adb6379)
+      if len ≠ so + signatureLen sig then none else
       some ⟨len, so, perm, (b.drop 8).take certPermDataLen, fuse, (b.drop 24).take certUuidLen, rec, sid, data, sig⟩
 
-/-- `AhabCertificate.parse(data)`.  As in the source (open finding C06-cert-length-check) the declared length is NOT compared
-    with signature offset + signature for a certificate with one signature. -/
+/-- `AhabCertificate.parse(data)` -/
 def parseCert (b : Bytes) : Option PCert :=
   if b.length < AhabConsts.certificateLayout.size then none else
   match unpackInts certIntsA b, unpackInts certIntsB (b.drop 20) with
